@@ -156,10 +156,46 @@ def iterate (e : Env) (a : Auc) (now twaC : Int) (actC : Bool) (twaD : Int) (act
     pure { a1 with start := now, end_ := now + e.T, init := i', endP := e', price := i' }
   else pure a1
 
+/-- the emergency-shutdown wind-down of `RestartDutchAuctions` (dutch.go:515-637), taken instead of a restart when the window is
+over and the app's ESM status is on.  Custody effects only; the vault-ledger side (existing vault topped up / vault re-created
+with `AmountIn = unsold collateral`, `AmountOut = principal − collected`, product totals reduced) belongs to the vault model.
+* collected < principal: the unsold collateral goes back to the vault module, everything collected is burned;
+* collected ≥ principal: the principal is burned, the rest of what was collected is the penalty for the collector, the unsold
+  collateral goes to the ESM module (needs the ESM price snapshot of the collateral, else the whole step is rolled back). -/
+def windDown (e : Env) (s : St) (a : Auc) (snapshot : Bool) : Except Unit St :=
+  if a.inCur < e.principal then
+    match sendPos s.bank .auction .vaultMod .coll a.outCur with
+    | .error _ => .error ()
+    | .ok b1 =>
+    match (if a.inCur > 0 then burn b1 .auction .debt a.inCur else .ok b1) with
+    | .error _ => .error ()
+    | .ok b2 => .ok { s with bank := b2, burned := s.burned + (if a.inCur > 0 then a.inCur else 0), auc := none }
+  else
+    match (if e.principal > 0 then burn s.bank .auction .debt e.principal else .ok s.bank) with
+    | .error _ => .error ()
+    | .ok b1 =>
+    match sendPos b1 .auction .collector .debt (a.inCur - e.principal) with
+    | .error _ => .error ()
+    | .ok b2 =>
+    if !snapshot then .error () else                              -- esmtypes.ErrPriceNotFound
+    match send b2 .auction .esm .coll a.outCur with
+    | .error _ => .error ()
+    | .ok b3 =>
+      .ok { s with bank := b3, burned := s.burned + (if e.principal > 0 then e.principal else 0),
+                   netFees := some ((match s.netFees with | some q => q | none => 0) + (a.inCur - e.principal)), auc := none }
+
 inductive Op
   | bid (who : Nat) (slice : Int)
   | tick (now twaC : Int) (actC : Bool) (twaD : Int) (actD : Bool)
+  | tickEsm (now twaC : Int) (actC : Bool) (twaD : Int) (actD : Bool) (snapshot : Bool)   -- block hook with the app's ESM status on
   deriving Repr, Inhabited
+
+/-- the price part of `iterate` only (what runs before the window check) -/
+def priceUpdate (e : Env) (a : Auc) (now : Int) (twaD : Int) (actD : Bool) : Except Unit Auc := do
+  if e.oracleDebt && !actD then throw ()
+  let inP := if e.oracleDebt then twaD else e.fixedDebt
+  let p ← DutchPrice.priceV1 a.init a.endP e.T (now - a.start)
+  pure { a with inPrice := Dec.ofInt inP, price := p }
 
 def step (e : Env) (s : St) : Op → St
   | .bid who slice => match bidE e s who slice with | .ok s' => s' | .error _ => s
@@ -169,6 +205,17 @@ def step (e : Env) (s : St) : Op → St
     | some a => match iterate e a now twaC actC twaD actD with
       | .ok a' => { s with auc := some a' }
       | .error _ => s
+  | .tickEsm now _ _ twaD actD snapshot =>
+    match s.auc with
+    | none => s
+    | some a => match priceUpdate e a now twaD actD with
+      | .error _ => s
+      | .ok a1 =>
+        if now > a.end_ then
+          match windDown e { s with auc := some a1 } a1 snapshot with
+          | .ok s' => s'
+          | .error _ => s
+        else { s with auc := some a1 }
 
 def run (e : Env) (s : St) (ops : List Op) : St := ops.foldl (step e) s
 
